@@ -231,7 +231,7 @@ def do_check(tier, seed, t0):
         "distinct_nontrivial": totals["distinct_states"],
         "rule": "one evaluation = one seeded simulated run: a builder history (derive_more::__private::debug_tuple / field^k / finish|finish_non_exhaustive) "
                 "or a value of a twin-corpus type, whose fields are scripted foreign Debug parties (seeded chunk schedule over write_str/write_char/write_fmt/pad/"
-                "pad_integral/integer-float-str Debug/option echo/nested core builders/nested builder-under-test, optional Err at step j), under one of 672 caller specs "
+                "pad_integral/integer-float-str Debug/option echo/nested core builders/nested builder-under-test, optional Err at step j), under one of 1440 caller specs "
                 "with run-time width/precision, one of 7 nesting contexts, and a sink that is unlimited, full after N bytes, or fails once at byte N; judged against core's "
                 "DebugTuple/DebugStruct resp. std's #[derive(Debug)] on the identical definition under the identical script, spec and fault (sink contents and fmt::Result). "
                 "distinct_nontrivial counts distinct abstract states reached: (layer, builder shape or corpus type index, context, spec class (alt,hex,width,prec,fill/align,+,0), "
